@@ -115,6 +115,38 @@ type C18SU struct {
 	A int
 	b string
 }
+// error values: a sentinel (pointer identity, like errors.New), a wrapper with Unwrap (like fmt.Errorf("%w")), an error with an
+// Is method that ignores a field, a comparable struct error with an interface field (== panics when that holds a slice)
+type C18ErrS struct{ Msg string }
+
+func (e *C18ErrS) Error() string { return e.Msg }
+
+type C18ErrW struct {
+	Msg string
+	Err error
+}
+
+func (e *C18ErrW) Error() string { return e.Msg + ": " + fmt.Sprint(e.Err) }
+func (e *C18ErrW) Unwrap() error { return e.Err }
+
+type C18ErrIs struct {
+	Code int
+	Note string
+}
+
+func (e C18ErrIs) Error() string { return "code " + strconv.Itoa(e.Code) }
+func (e C18ErrIs) Is(target error) bool {
+	t, ok := target.(C18ErrIs)
+	return ok && t.Code == e.Code
+}
+
+type C18ErrC struct {
+	Msg    string
+	Detail interface{}
+}
+
+func (e C18ErrC) Error() string { return e.Msg }
+
 type C18NBytes []byte
 type C18NArr4 [4]byte
 type C18F0 func()
@@ -142,12 +174,12 @@ var c18base = map[string]reflect.Type{
 	"NF32": reflect.TypeOf(C18NF32(0)), "NStr": reflect.TypeOf(C18NStr("")), "NBool": reflect.TypeOf(C18NBool(false)),
 	"Level": reflect.TypeOf(C18Level(0)), "ULevel": reflect.TypeOf(C18ULevel(0)), "Temp": reflect.TypeOf(C18Temp(0)), "Errno": reflect.TypeOf(C18Errno(0)),
 	"S1": reflect.TypeOf(C18S1{}), "S2": reflect.TypeOf(C18S2{}), "SF": reflect.TypeOf(C18SF{}), "SB": reflect.TypeOf(C18SB{}),
-	"SN": reflect.TypeOf(C18SN{}), "SS": reflect.TypeOf(C18SS{}), "E0": reflect.TypeOf(C18E0{}), "SP": reflect.TypeOf(C18SP{}), "S3": reflect.TypeOf(C18S3{}), "SU": reflect.TypeOf(C18SU{}), "NBytes": reflect.TypeOf(C18NBytes(nil)), "NArr4": reflect.TypeOf(C18NArr4{}),
+	"SN": reflect.TypeOf(C18SN{}), "SS": reflect.TypeOf(C18SS{}), "E0": reflect.TypeOf(C18E0{}), "SP": reflect.TypeOf(C18SP{}), "S3": reflect.TypeOf(C18S3{}), "SU": reflect.TypeOf(C18SU{}), "ErrS": reflect.TypeOf(C18ErrS{}), "ErrW": reflect.TypeOf(C18ErrW{}), "ErrIs": reflect.TypeOf(C18ErrIs{}), "ErrC": reflect.TypeOf(C18ErrC{}), "NBytes": reflect.TypeOf(C18NBytes(nil)), "NArr4": reflect.TypeOf(C18NArr4{}),
 	"F0": reflect.TypeOf(C18F0(nil)), "F1": reflect.TypeOf(C18F1(nil)), "func()": reflect.TypeOf(func() {}),
 }
 
 // types that can be boxed into the non-empty interfaces of the zoo
-var c18impls = map[string][]string{"IStr": {"Level", "ULevel", "Temp", "SP"}, "error": {"Errno"}}
+var c18impls = map[string][]string{"IStr": {"Level", "ULevel", "Temp", "SP"}, "error": {"Errno", "*ErrS", "*ErrW", "ErrIs", "ErrC"}}
 
 func c18type(name string) reflect.Type {
 	if t, ok := c18base[name]; ok {
